@@ -1,28 +1,41 @@
 """
 C13 — no hidden state: results do not depend on what was processed before.
 
-Theorems: lean/BufrModel/Props/C13.lean over the model lean/BufrModel/Msg/Cache.lean (both caches are
-memo tables of pure functions with the code's eviction; history independence; a failing operation
-leaves an observationally equivalent state; wire-once) — histories of any length.
+Theorems:
+  * lean/BufrModel/Props/C13.lean over lean/BufrModel/Msg/Cache.lean (both caches are memo tables of pure functions with
+    the code's eviction; history independence; a failing operation leaves an observationally equivalent state; wire-once);
+  * lean/BufrModel/Props/C13Session.lean over lean/BufrModel/Msg/Session.lean: the SESSION model - cache limit, table-group
+    cache, per Decoder/Encoder object its compiled-template cache and the registers the last message left behind (also
+    after a failure at any stage), per renderer/querent object the scratch of its last call, the kept message objects with
+    their wire-once flag - refines the stateless specification for every list of operations (decode/encode ok or failing
+    at head / tables / template / compilation / data / wiring, wire, render/query through kept objects, release of objects,
+    invalidation, limit changes, direct table requests);
+  * lean/BufrModel/Props/C13Keyed.lean: a cache keyed by a function of the request is transparent IFF the key determines
+    the stored result; witness: marker descriptors cached without the table group (seeded/C13-2, seeded/C07-4).
 
-Tie (model <-> implementation), cache level: random get / invalidate / limit-change histories are run on
-the real `TableGroupCache` (fresh instance installed as `TableGroupCacheManager._TABLE_GROUP_CACHE`,
-`tables.MAXIMUM_NUMBER_OF_CACHED_TABLE_GROUPS` set through the module attribute) and on the real
-`CompiledTemplateManager`, and on the model's `tableGet` / `compiledGet` (driver op `cache`); the key lists
-(order = eviction order) and the outcome families are compared after every step, and every group /
-compiled template returned is compared with what loading / compiling its key from scratch gives.  The
-cache requests logged while the oracle's histories run (real decodes and encodes) are replayed on the
-model in the same way.
+Tie (model <-> implementation):
+  * cache level: random get / invalidate / limit-change histories on the real `TableGroupCache` and `CompiledTemplateManager`
+    and on the model's `tableGet` / `compiledGet` (driver op `cache`): key lists (eviction order) and outcome families after
+    every step, contents against a fresh load / compile; the cache requests logged during the oracle's histories likewise;
+  * session level (driver op `session`, which executes Session.step / pureOut / failStage): EVERY history of the oracle is
+    translated to the model's operations; after every operation the outcome class, the stage at which a decode/encode failed
+    (from instrumented stage events), the keys of the table-group cache and of every coder's compiled-template cache, and
+    the set of message objects held with their `_is_wired` flags are compared; the driver also checks run = specRun on it;
+  * the cross-version inputs (harness/xversion.py) are encoded and decoded with fresh objects and compared with the coder
+    model (`enc-data` / `dec-data`) under the tables each message names; a fresh interpreter must decode to the same.
 
-Oracle (implementation vs implementation; carries what the model cannot show: Python aliasing and
-mutation of shared cached descriptor objects): random histories of 20..200 operations — decode, decode of
-damaged bytes, encode from JSON, failing encode, multi-message scan, the four renderers, data queries,
-metadata queries, explicit wire(), table-group requests, cache invalidation, re-decoding the same bytes,
-re-rendering / re-querying the same message object — with Decoder/Encoder objects
-(compiled_template_cache_max in {None,0,1,2,50}) reused over the whole history and the table-group cache
-limit forced to 1, 2 or 3 (thorough: also the real 50 with 60 groups loaded).  Every output is compared with
-the output of the same operation as the FIRST operation of a fresh interpreter (one new process per
-distinct operation).  Table-definition messages (data category 11, prepbufr) are excluded.
+Oracle (implementation vs implementation; carries what the model cannot show: Python aliasing, object identity):
+histories on ONE reused Decoder / Encoder per configuration (compiled_template_cache_max in {None,0,1,2,50}), ONE kept
+renderer of each kind / DataQuerent / MetadataQuerent per slot, table-group cache limit 1/2/3 (50 with 60 groups loaded):
+  (b) random: decode, damaged decode, encode, failing encode, scan, four renderers, data / metadata queries, wire(), table
+      requests, invalidation, limit changes, re-decoding / re-rendering, release of objects (`drop`: gc.collect());
+  (c) cross-version: families derived MECHANICALLY from the bundled tables (elements / sequences whose definition differs
+      between two table groups: master versions and local tables) - the same template (marker operators over the bit-mapped
+      element, class 33 after 222000, 237000 chains, associated fields, 203/201/202/207/208, replication, sequences) under
+      2-3 table groups, decoded / encoded in changing order by the SAME coder object, rendered / queried by kept objects;
+  (d) stream: decode, render with kept renderers, query, DROP and collect, next message - so that id() values recur.
+Every output is compared with the output of the same operation as the FIRST operation of a fresh interpreter (one new
+process per distinct operation).  Table-definition messages (data category 11, prepbufr) are excluded.
 """
 import glob
 import hashlib
@@ -38,21 +51,37 @@ PROP = 'C13'
 OWN_CORPUS = True   # the histories of corpus/C13 are run by run() itself
 
 META = dict(
-    text='PARTIAL. Kernel-checked for histories of any length over the model of the process state (table-group cache with the '
-         'popitem eviction loop and any limit incl. 0/1, per-coder compiled-template cache with its limit, kept message objects, '
-         'wire-once flag; coder/compiler/wiring/renderers/queries abstract pure functions): both caches stay memo tables (every '
-         'entry = load/compile of its key, keys distinct, size <= limit), every operation returns after any history what it '
-         'returns first in a fresh process, a failing operation leaves an observationally equivalent state, wire() is idempotent. '
-         'The model is immutable by construction, so dependence through Python aliasing/mutation of the shared cached descriptor '
-         'objects cannot be exhibited by the theorems; that part is covered only by the differential oracle: random histories '
-         '(20..200 operations, ~45 messages using more table versions than the caches hold, cache limits 1/2/3/50, compiled cache '
-         'sizes None/0/1/2/50) whose every output is compared with the same operation run first in a fresh interpreter. '
-         'Cache-level correspondence: key lists (eviction order) and contents of the real TableGroupCache / CompiledTemplateManager '
-         'vs the model after every step, including the cache requests logged during the real decode histories.',
-    technique='Lean 4 theorems (invariant of reachable states + stateless reference semantics) + model/implementation correspondence '
-              'on cache histories + implementation-vs-fresh-interpreter differential oracle on operation histories',
+    text='PARTIAL. Kernel-checked for operation lists of any length: (1) Msg/Cache.lean: both caches stay memo tables (every entry = '
+         'load/compile of its key, keys distinct, size <= limit, any limit incl. 0/1), every operation returns what it returns '
+         'first in a fresh process, a failing operation leaves an observationally equivalent state, wire() is idempotent. '
+         '(2) Msg/Session.lean (C13_session_*): a state machine whose state holds the cache limit (module attribute, changeable), '
+         'the table-group cache, per Decoder/Encoder object its compiled-template cache AND the registers the last message left '
+         'behind (complete, or as they were where a failure left), per renderer/querent object the scratch of its last call, the '
+         'kept message objects with the wire-once flag; operations decode/encode (ok or failing at head/tables/template/'
+         'compilation/data/wiring), wire, render/query through a kept object, release of objects, invalidate, set limit, direct '
+         'table request. Proved by induction over arbitrary operation lists: the outputs equal those of a stateless specification '
+         '(refinement; the only thing threaded is the limit the caller set; hypothesis: the limit is not set to 0 in mid-session, '
+         'shown necessary on a witness); registers and scratch are never read; the failing stage is a function of the input; '
+         'frame of a failing decode. Leaky variants (no new register set / no reset()) are shown NOT to refine. '
+         '(3) C13_keyed_cache_transparent_iff: a cache keyed by key(request), any eviction, is unobservable IFF key determines '
+         'the stored result; negative direction proved on the witness of seeded/C13-2 / C07-4 (marker descriptor cached by '
+         '(operator, element id) without the table group: 022039 12 vs 13 bits). '
+         'The model is immutable, so dependence through Python aliasing / object identity (id() reuse after garbage collection, '
+         'mutation of shared cached descriptors) cannot be exhibited by theorems; that part is carried by the oracle: histories on '
+         'ONE reused Decoder/Encoder/renderer/querent per slot - random traffic, cross-version families derived mechanically from '
+         'the bundled tables (550 elements / 190 sequences defined differently in two of the 44 bundled table groups; marker '
+         'operators, class 33, associated fields, 203/201/202/207/208, replication, sequences), and stream conversion with released '
+         'objects and gc.collect() - every output compared with the same operation run first in a fresh interpreter. '
+         'Correspondence: cache level (key lists, contents) and session level (every oracle history replayed on Session.step: '
+         'outcome class, failing stage, both caches\' keys, kept objects and wired flags after every operation).',
+    technique='Lean 4 theorems (invariant of reachable states, refinement of a state machine to a stateless specification by '
+              'induction over operation lists, iff-characterisation of transparent keyed caches) + model/implementation '
+              'correspondence on cache and session histories + implementation-vs-fresh-interpreter differential oracle on '
+              'operation histories over mechanically derived cross-table-version inputs',
     note='Partial: Python object identity/aliasing is not modelled (DESIGN 4.3); the fresh-interpreter comparison is the only '
-         'evidence for that part. Table-definition messages and extra B/D entries are excluded (C20).',
+         'evidence for that part. Table-definition messages and extra B/D entries are excluded (C20). The session refinement '
+         'assumes the cache limit is never set to 0 in mid-session (with 0 the code raises KeyError on every miss while kept '
+         'objects stay usable: proved counterexample in Props/C13Session.lean).',
 )
 
 CFGS = [None, 0, 1, 2, 50]
@@ -409,7 +438,32 @@ class Runner(object):
         self.tables = tables
         self.log = []          # table cache requests: (key, outcome, keys after)
         self.clog = []         # compiled cache requests: (coder, key, outcome, keys after)
+        # every stage event in order (for the correspondence with the session model): ('t', key, tag) table-group request,
+        # ('b', tag) build_template, ('c', coder, key, tag) compiled-template request, ('w', tag) TemplateData.wire,
+        # ('p', tag) Decoder/Encoder.process as a whole
+        self.elog = []
         runner = self
+
+        def logged_method(cls, name, kind):
+            orig = getattr(cls, name)
+            if getattr(orig, '_c13_logged', False):
+                orig = orig._c13_orig
+
+            def wrapper(self_, *a, **kw):
+                tag = 'ok'
+                try:
+                    return orig(self_, *a, **kw)
+                except BaseException as e:
+                    tag = core.err_tag(e)
+                    raise
+                finally:
+                    runner.elog.append((kind, tag))
+            wrapper._c13_logged = True
+            wrapper._c13_orig = orig
+            setattr(cls, name, wrapper)
+        from pybufrkit import bufr as _bufr, templatedata as _td
+        logged_method(_bufr.BufrMessage, 'build_template', 'b')
+        logged_method(_td.TemplateData, 'wire', 'w')
 
         class LoggingCache(tables.TableGroupCache):
             def get(self, key):
@@ -421,6 +475,7 @@ class Runner(object):
                     raise
                 finally:
                     runner.log.append((key_str(key), tag, [key_str(k) for k in self._groups], tables.MAXIMUM_NUMBER_OF_CACHED_TABLE_GROUPS))
+                    runner.elog.append(('t', key_str(key), tag))
 
             def invalidate(self):
                 tables.TableGroupCache.invalidate(self)
@@ -480,15 +535,39 @@ class Runner(object):
                     finally:
                         runner.clog.append((_name, ckey_str((tuple(template.original_descriptor_ids), table_group.key)),
                                             tag, [ckey_str(k) for k in _mgr.cache], _mgr.cache_max))
+                        runner.elog.append(('c', _name, ckey_str((tuple(template.original_descriptor_ids), table_group.key)), tag))
                 mgr.get_or_compile = logged
             self.coders[k] = c
         return c
 
     def process(self, src, cfg, m, wire):
         c = self.coder(src, cfg)
-        if src == 'dec':
-            return c.process(self.pool['msgs'][m], wire_template_data=wire)
-        return c.process(self.pool['jsons'][m], wire_template_data=wire)
+        tag = 'ok'
+        try:
+            if src == 'dec':
+                return c.process(self.pool['msgs'][m], wire_template_data=wire)
+            return c.process(self.pool['jsons'][m], wire_template_data=wire)
+        except BaseException as e:
+            tag = core.err_tag(e)
+            raise
+        finally:
+            self.elog.append(('p', tag))
+
+    def snapshot(self):
+        """what the session model keeps as state: keys of the table-group cache, keys of every coder's compiled-template
+        cache, the message objects the caller holds with their wire-once flag"""
+        cache = self.tables.TableGroupCacheManager._TABLE_GROUP_CACHE
+        objs = []
+        for (src, cfg, m), msg in self.objs.items():
+            try:
+                wired = bool(msg.template_data.value._is_wired)
+            except Exception:  # noqa
+                wired = None
+            objs.append([src, cfg, m, wired])
+        return {'tables': [key_str(k) for k in cache._groups],
+                'compiled': {'%s:%s' % k: [ckey_str(x) for x in c.compiled_template_manager.cache]
+                             for k, c in self.coders.items() if c.compiled_template_manager is not None},
+                'objs': sorted(objs, key=repr)}
 
     def obtain(self, src, cfg, m):
         k = (src, cfg, m)
@@ -577,22 +656,206 @@ def run_history(task):
     pool = load_pool(task['pool'])
     r = Runner(pool, task.get('limit'))
     out = []
+    st = []
     audit = None
     for i, op in enumerate(task['ops']):
+        n0 = len(r.elog)
         try:
             out.append(r.do(op))
         except Exception as e:
             out.append(core.err_tag(e))
+        st.append({'ev': [list(e) for e in r.elog[n0:]], 'snap': r.snapshot()})
         if audit is None and task.get('audit', True):
             a = r.audit()
             if a:
                 audit = (i, a)
-    return {'out': out, 'log': r.log, 'clog': r.clog, 'audit': audit}
+    return {'out': out, 'log': r.log, 'clog': r.clog, 'audit': audit, 'st': st}
 
 
 def run_fresh(task):
-    """one operation as the first thing a fresh interpreter does (default cache limit)"""
-    return run_history({'pool': task['pool'], 'limit': None, 'ops': [task['op']]})['out'][0]
+    """one operation as the first thing a fresh interpreter does (default cache limit) -> (output, stage events)"""
+    res = run_history({'pool': task['pool'], 'limit': None, 'ops': [task['op']]})
+    return res['out'][0], res['st'][0]['ev']
+
+
+# ---------------------------------------------------------------------------------------------
+# correspondence with the session model (lean/BufrModel/Msg/Session.lean, driver op `session`)
+def stage_of(ev, failed):
+    """the stage at which the decode / encode inside one operation gave up, from its events (None: it did not)"""
+    if not any(e[0] == 'p' for e in ev):
+        return None                          # nothing was decoded / encoded (the object was kept)
+    ptag = [e for e in ev if e[0] == 'p'][0][1]
+    if ptag == 'ok':
+        return None
+    if any(e[0] == 't' and e[2] != 'ok' for e in ev):
+        return 'tables'
+    if not any(e[0] in 'tb' for e in ev):
+        return 'header'
+    if any(e[0] == 'b' and e[1] != 'ok' for e in ev):
+        return 'build'
+    if any(e[0] == 'c' and e[3] != 'ok' for e in ev):
+        return 'compile'
+    if any(e[0] == 'w' and e[1] != 'ok' for e in ev):
+        return 'wire'
+    return 'data'
+
+
+class Names(object):
+    def __init__(self):
+        self.d = {}
+
+    def __call__(self, x):
+        return self.d.setdefault(x, len(self.d))
+
+
+def session_request(limit, ops, res, facts):
+    """One real history -> the request for the driver op `session` + what to compare.
+    facts: per input (src, m) what the REFERENCE runs (the operation alone in a fresh interpreter) showed: the table group it
+    asks for, the descriptor-list part of its compiled-template key, the stage at which it fails, whether wiring / a view
+    fails.  The model is told these (its coder is abstract) and predicts every output class, failing stage, cache content
+    and kept object of the history."""
+    coders, inputs, tkeys, tids, views, viewers = Names(), Names(), Names(), Names(), Names(), Names()
+    inp_rows = {}
+    fail = {'load': set(), 'build': set(), 'compile': set(), 'data': set(), 'wire': set(), 'view': set()}
+    cache_max = {}
+
+    def coder(src, cfg):
+        c = coders((src, cfg))
+        cache_max[c] = cfg
+        return c
+
+    def inp(src, m):
+        i = inputs((src, m))
+        if i not in inp_rows:
+            f = facts.get((src, m), {})
+            k = tkeys(f['tkey']) if f.get('tkey') is not None else None
+            t = tids(f.get('ids') if f.get('ids') is not None else ('#', src, m))
+            inp_rows[i] = [k, t, src == 'enc']
+            stg = f.get('stages', set())
+            if 'tables' in stg and k is not None:
+                fail['load'].add(k)
+            if 'build' in stg:
+                fail['build'].add((k, t))
+            if 'compile' in stg:
+                fail['compile'].add((k, t))
+            if 'data' in stg:
+                fail['data'].add(i)
+            if 'wire' in stg:
+                fail['wire'].add(i)
+        return i
+    mops, last = [], []        # model operations; index of the last model operation of every real operation (None: not modelled)
+    fresh_viewer = [10 ** 6]
+    for op, o, st in zip(ops, res['out'], res['st']):
+        k = op['k']
+        if k == 'proc':
+            mops.append(['proc', coder(op['src'], op['c']), inp(op['src'], op['m']), bool(op['wire'])])
+        elif k == 'wire':
+            mops.append(['wire', coder(op['src'], op['c']), inp(op['src'], op['m'])])
+        elif k == 'view':
+            ro = op.get('ro', -1)
+            if ro < 0:
+                fresh_viewer[0] += 1
+                r = fresh_viewer[0]
+            else:
+                r = viewers((op['v'][0] if op['v'][0] != 'r' else op['v'][1], ro))
+            i = inp(op['src'], op['m'])
+            v = views(json.dumps(op['v']))
+            if facts.get((op['src'], op['m']), {}).get('viewfail', {}).get(json.dumps(op['v'])):
+                fail['view'].add((v, i))
+            mops.append(['view', r, coder(op['src'], op['c']), i, v])
+        elif k == 'drop':
+            mops.append(['dropall'] if op.get('m') is None else ['drop', coder(op['src'], op['c']), inp(op['src'], op['m'])])
+        elif k == 'inval':
+            mops.append(['invalidate'])
+        elif k == 'limit':
+            mops.append(['limit', op['n']])
+        elif k == 'tg':
+            tev = [e for e in st['ev'] if e[0] == 't']
+            if len(tev) != 1:
+                return None
+            kk = tkeys(tev[0][1])
+            if tev[0][2] != 'ok':
+                fail['load'].add(kk)
+            mops.append(['tables', kk])
+        elif k == 'scan':
+            # a scan decodes the messages of a file one after the other and keeps none: for the state of the caches it is a
+            # sequence of decodes that stop after compilation; their outputs are not compared
+            c = coder('dec', op['c'])
+            ev = st['ev']
+            j = 0
+            while j < len(ev):
+                if ev[j][0] == 't':
+                    kk = tkeys(ev[j][1])
+                    if ev[j][2] != 'ok':
+                        fail['load'].add(kk)
+                    ids = None
+                    jj = j + 1
+                    while jj < len(ev) and ev[jj][0] != 't':
+                        if ev[jj][0] == 'c':
+                            ids = ev[jj][2].split('|')[0]
+                            if ev[jj][3] != 'ok':
+                                fail['compile'].add((kk, tids(ids)))
+                        jj += 1
+                    i = inputs(('scan', len(inputs.d)))
+                    t = tids(ids if ids is not None else ('#scan', i))
+                    inp_rows[i] = [kk, t, False]
+                    fail['data'].add(i)
+                    mops.append(['proc', c, i, False])
+                    j = jj
+                else:
+                    j += 1
+            last.append(('scan', len(mops) - 1))
+            continue
+        else:
+            return None
+        last.append((k, len(mops) - 1))
+    ncod = len(coders.d)
+    req = {'op': 'session', 'limit': 50 if limit is None else limit,
+           'cache_max': [cache_max.get(c) for c in range(ncod)],
+           'inputs': [inp_rows[i] for i in range(len(inputs.d))],
+           'fail_load': sorted(fail['load']), 'fail_build': sorted(map(list, fail['build'])), 'fail_compile': sorted(map(list, fail['compile'])),
+           'fail_data': sorted(fail['data']), 'fail_wire': sorted(fail['wire']), 'fail_view': sorted(map(list, fail['view'])),
+           'ops': mops}
+    return req, last, {'coders': coders.d, 'inputs': inputs.d, 'tkeys': tkeys.d, 'tids': tids.d}
+
+
+def compare_session(ops, res, last, names, m):
+    """-> description of the first disagreement between the real history and the model's session, or None"""
+    if not m.get('refines'):
+        return 'refines', 'the model run of this history does not equal its own stateless specification (theorem C13_session_refines_stateless_spec violated by the driver?)'
+    tk = {v: k for k, v in names['tkeys'].items()}
+    ti = {v: k for k, v in names['tids'].items()}
+    ci = {v: k for k, v in names['coders'].items()}
+    ii = {v: k for k, v in names['inputs'].items()}
+    for n, (op, o, st, (kind, j)) in enumerate(zip(ops, res['out'], res['st'], last)):
+        if j < 0:
+            continue
+        where = 'operation %d (%s on %s)' % (n, kind_str(op), op.get('m') or op.get('f') or op.get('v') or '')
+        if kind != 'scan':
+            iok = not (isinstance(o, str) and o.startswith('err'))
+            mok = m['out'][j] != 'err'
+            if iok != mok:
+                return 'outcome', '%s: implementation %s, model %s' % (where, 'succeeds' if iok else 'fails (%s)' % o, m['out'][j])
+        if kind == 'proc':
+            istage = stage_of(st['ev'], None)
+            if istage != m['stage'][j]:
+                return 'stage', '%s: fails at stage %s, the model (stage = a function of the input) says %s' % (where, istage, m['stage'][j])
+        snap = st['snap']
+        mt = [tk[x] for x in m['tables'][j]]
+        if snap['tables'] != mt:
+            return 'tables', '%s: table-group cache holds %s, model %s' % (where, snap['tables'], mt)
+        for c, keys in enumerate(m['compiled'][j]):
+            src, cfg = ci[c]
+            if cfg is None:
+                continue
+            mk = ['%s|%s' % (ti[t], tk[k]) for t, k in keys]
+            ik = snap['compiled'].get('%s:%s' % (src, cfg), [])
+            if ik != mk:
+                return 'compiled', '%s: compiled-template cache of %s:%s holds %s, model %s' % (where, src, cfg, ik, mk)
+        mo = sorted(([ci[c][0], ci[c][1], ii[i][1], w] for c, i, w in m['objs'][j]), key=repr)
+        if snap['objs'] != mo:
+            return 'objs', '%s: the caller holds %s, model %s' % (where, snap['objs'], mo)
+    return None
 
 
 # ---------------------------------------------------------------------------------------------
@@ -1015,6 +1278,61 @@ def shrink(mp, pool_path, limit, prefix, final, ref, budget=120):
     return cur
 
 
+def build_facts(distinct, refs, refev):
+    """what the reference runs show about every input: table group asked for, descriptor-list part of the compiled key,
+    failing stages, failing views (the inputs of the abstract coder of the session model)"""
+    facts = {}
+    for k, op in distinct.items():
+        if op['k'] not in ('proc', 'wire', 'view'):
+            continue
+        f = facts.setdefault((op['src'], op['m']), {'stages': set(), 'viewfail': {}, 'tkey': None, 'ids': None})
+        ev, out = refev[k], refs[k]
+        tev = [e for e in ev if e[0] == 't']
+        if tev and f['tkey'] is None:
+            f['tkey'] = tev[0][1]
+        cev = [e for e in ev if e[0] == 'c']
+        if cev and f['ids'] is None:
+            f['ids'] = cev[0][2].split('|')[0]
+        stg = stage_of(ev, None)
+        if stg:
+            f['stages'].add(stg)
+        elif isinstance(out, str) and out.startswith('err'):
+            if any(e[0] == 'w' and e[1] != 'ok' for e in ev):
+                f['stages'].add('wire')
+            elif op['k'] == 'view':
+                f['viewfail'][json.dumps(op['v'])] = True
+    return facts
+
+
+def session_correspondence(ctx, hists, results, distinct, refs, refev, pool_cls):
+    """every real history against the session model (driver op `session`): output class and failing stage of every
+    operation, keys of the table-group cache and of every coder's compiled-template cache, the message objects held and
+    their wire-once flags - after EVERY operation; plus the model's own refinement check on that history"""
+    facts = build_facts(distinct, refs, refev)
+    reqs, metas = [], []
+    for hi, ((limit, ops), res) in enumerate(zip(hists, results)):
+        sr = session_request(limit, ops, res, facts)
+        if sr is None:
+            ctx.count('session:histories not expressible in the model')
+            continue
+        reqs.append(sr[0])
+        metas.append((hi, sr))
+    if not reqs:
+        return
+    for (hi, (req, last, names)), m in zip(metas, ctx.driver.batch(reqs)):
+        ctx.traces += 1
+        ctx.count('session:histories compared with the model')
+        ctx.count('session:model operations', len(req['ops']))
+        for s in m['stage']:
+            if s:
+                ctx.count('session:failing stage:' + s)
+        why = compare_session(hists[hi][1], results[hi], last, names, m)
+        if why:
+            limit, ops = hists[hi]
+            ctx.violation('session model: history %d: %s' % (hi, why[1]), {'mode': 'history', 'limit': limit, 'ops': ops},
+                          signature={'kind': 'session-correspondence', 'what': why[0]})
+
+
 def evaluate_histories(ctx, mp, pool_path, pool, hists, kinds=None):
     """hists: list of (limit, ops).  Runs references (fresh interpreter per distinct op), the histories, compares."""
     pool_cls = {m['name']: m['cls'] for m in pool['msgs']}
@@ -1027,12 +1345,14 @@ def evaluate_histories(ctx, mp, pool_path, pool, hists, kinds=None):
     keys = sorted(distinct)
     import time
     t0 = time.time()
-    refs = dict(zip(keys, mp.map(run_fresh, [{'pool': pool_path, 'op': distinct[k]} for k in keys], chunksize=1)))
+    fres = mp.map(run_fresh, [{'pool': pool_path, 'op': distinct[k]} for k in keys], chunksize=1)
+    refs = {k: r[0] for k, r in zip(keys, fres)}
+    refev = {k: r[1] for k, r in zip(keys, fres)}
     # cross-check: a sample of the operations in interpreters started from scratch ('spawn')
     srng = ctx.rng('spawn-sample')
     sample = srng.sample(keys, min(len(keys), 96 if ctx.tier == 'quick' else 960))
     with multiprocessing.get_context('spawn').Pool(min(16, os.cpu_count() or 1), maxtasksperchild=1) as sp:
-        sres = sp.map(run_fresh, [{'pool': pool_path, 'op': distinct[k]} for k in sample], chunksize=1)
+        sres = [r[0] for r in sp.map(run_fresh, [{'pool': pool_path, 'op': distinct[k]} for k in sample], chunksize=1)]
     ctx.count('oracle:reference operations cross-checked in spawned interpreters', len(sample))
     for k, r in zip(sample, sres):
         if r != refs[k]:
@@ -1052,6 +1372,7 @@ def evaluate_histories(ctx, mp, pool_path, pool, hists, kinds=None):
                               {'mode': 'history', 'limit': None, 'ops': [op]}, signature={'kind': 'fresh-vs-parent', 'op': kind_str(op)})
     results = mp.map(run_history, [{'pool': pool_path, 'limit': limit, 'ops': ops} for limit, ops in hists], chunksize=1)
     ctx.notes.append('timing: %d reference operations in fresh interpreters %.1fs, %d histories %.1fs' % (len(keys), t1 - t0, len(hists), time.time() - t1))
+    session_correspondence(ctx, hists, results, distinct, refs, refev, pool_cls)
     logged = []
     for hi, ((limit, ops), res) in enumerate(zip(hists, results)):
         ctx.count('oracle:histories:kind:' + kinds[hi])
